@@ -12,16 +12,34 @@ Variable kof : A -> kres K.
 Variable keqb : K -> K -> bool.
 Hypothesis keqb_eq : forall a b, keqb a b = true <-> a = b.
 
-Lemma atomic_delete w ids l : no_bad kof l = true -> atomic (delete_loop kof keqb None w ids l) l.
+(* since a warning never raises (repair F29), the loops that warn do not depend on whether the
+   message ID can be evaluated *)
+Lemma delete_loop_mex mex w ids : forall l,
+  delete_loop kof keqb mex w ids l = delete_loop kof keqb None w ids l.
 Proof.
-  intros Hb Hc. exfalso. apply Hc.
+  induction ids as [|id ids IH]; intros l; simpl; [reflexivity|].
+  destruct (lookup kof keqb id l); [apply IH | | reflexivity].
+  unfold bind, emit. cbn [r_err r_st r_ws]. now rewrite IH.
+Qed.
+
+Lemma insert_dups_mex (id_of : A -> option K) okeqb mex w new : forall seen i l,
+  insert_dups mex id_of okeqb w seen i new l = insert_dups None id_of okeqb w seen i new l.
+Proof.
+  induction new as [|s r IH]; intros seen i l; simpl; [reflexivity|].
+  destruct (existsb (okeqb (id_of s)) seen); [|apply IH].
+  unfold bind, emit. cbn [r_err r_st r_ws]. now rewrite IH.
+Qed.
+
+Lemma atomic_delete mex w ids l : no_bad kof l = true -> atomic (delete_loop kof keqb mex w ids l) l.
+Proof.
+  intros Hb Hc. exfalso. apply Hc. rewrite delete_loop_mex.
   now destruct (delete_loop_spec kof keqb keqb_eq w ids l Hb) as (He & _).
 Qed.
 
-Lemma atomic_dups (id_of : A -> option K) okeqb w seen i new l :
-  i <= length l -> atomic (insert_dups None id_of okeqb w seen i new l) l.
+Lemma atomic_dups (id_of : A -> option K) okeqb mex w seen i new l :
+  i <= length l -> atomic (insert_dups mex id_of okeqb w seen i new l) l.
 Proof.
-  intros Hi Hc. exfalso. apply Hc.
+  intros Hi Hc. exfalso. apply Hc. rewrite insert_dups_mex.
   now destruct (insert_dups_spec id_of okeqb w seen i new l Hi) as (He & _).
 Qed.
 
@@ -70,7 +88,7 @@ Lemma atomic_raise {S} mex (s : S) : atomic (raise_merge mex s) s.
 Proof. now intros _. Qed.
 Lemma atomic_ok {S} (s s0 : S) : atomic (ok s) s0.
 Proof. intros H. now contradiction H. Qed.
-Lemma atomic_emit {S} w (s : S) : atomic (emit None w s) s.
+Lemma atomic_emit {S} mex w (s : S) : atomic (emit mex w s) s.
 Proof. now intros _. Qed.
 
 Lemma found_story_is_story sid kids i s :
@@ -92,17 +110,18 @@ Proof.
 Qed.
 
 (* ---- every merge on roCreate's children *)
+(* for every message: whether its messageID can be evaluated or not (it is evaluated only where
+   an exception is raised before anything has been changed) *)
 Theorem merge_kids_atomic o k m b rc :
-  msg_ok m = true -> wf_rc rc = true ->
+  wf_rc rc = true ->
   atomic (merge_kids o k m b rc) (kids_of rc).
 Proof.
-  intros Hm Hwf.
-  assert (Hmex : msg_id_exn m = None) by (unfold msg_ok in Hm; destruct (msg_id_exn m); [discriminate|reflexivity]).
+  intros Hwf.
   assert (Hb : no_bad skey (kids_of rc) = true) by (unfold wf_rc in Hwf; now apply andb_prop in Hwf as [H _]).
   assert (Hitems : forall sid i s, find_story sid (kids_of rc) = FFound i ->
                      nth_error (kids_of rc) i = Some s -> no_bad ikey (kids_of s) = true)
     by (intros; eapply wf_rc_story; eauto).
-  unfold merge_kids. rewrite Hmex. set (kids := kids_of rc) in *.
+  unfold merge_kids. set (kids := kids_of rc) in *.
   destruct k.
   - apply atomic_ok.
   - destruct (convert_story_send b); [|apply atomic_fail].
@@ -149,21 +168,27 @@ Proof.
 Qed.
 
 (* ---- C05: ro + msg *)
-Theorem failed_merge_is_identity o ro k m :
-  wf_ro ro = true -> msg_ok m = true ->
+Theorem failed_merge_is_identity_all o ro k m :
+  wf_ro ro = true ->
   r_err (add o ro k m) <> None -> r_st (add o ro k m) = ro.
 Proof.
-  intros Hwf Hm. unfold wf_ro in Hwf. destruct (rc_of ro) as [rc|] eqn:Hrc; [|discriminate].
+  intros Hwf. unfold wf_ro in Hwf. destruct (rc_of ro) as [rc|] eqn:Hrc; [|discriminate].
   unfold add. destruct (ro_completed ro); [reflexivity|].
   unfold merge. destruct (base_of k m) as [b|] eqn:Hb; [|reflexivity].
   assert (Hgen : edits_rc k = true ->
             r_err (map_res (put_kids ro) (merge_kids o k m b rc)) <> None ->
             r_st (map_res (put_kids ro) (merge_kids o k m b rc)) = ro).
   { intros _ Hc. cbn [map_res r_err r_st] in *.
-    rewrite (merge_kids_atomic o k m b rc Hm Hwf Hc). now apply put_kids_id. }
+    rewrite (merge_kids_atomic o k m b rc Hwf Hc). now apply put_kids_id. }
   unfold rc_of in Hrc.
   destruct k; try (rewrite Hrc; apply Hgen; reflexivity).
   - reflexivity.
   - destruct (find_index t_roCreate (kids_of ro)); [|reflexivity]. intros H. now contradiction H.
   - intros H. now contradiction H.
 Qed.
+
+Theorem failed_merge_is_identity o ro k m :
+  wf_ro ro = true -> msg_ok m = true ->
+  r_err (add o ro k m) <> None -> r_st (add o ro k m) = ro.
+Proof. intros Hwf _. now apply failed_merge_is_identity_all. Qed.
+
